@@ -250,7 +250,7 @@ const (
 	//   0123456789abcdef0123456789abcdef
 	ccommentEndMap = "" +
 		".........DF..D.................." + // 0x00
-		"DDDDDDDDDDDDDDDLDDDDDDDDDDDDDDDD" + // 0x20
+		"DDDDDDDDDD*DDDDLDDDDDDDDDDDDDDDD" + // 0x20
 		"DDDDDDDDDDDDDDDDDDDDDDDDDDDDDDDD" + // 0x40
 		"DDDDDDDDDDDDDDDDDDDDDDDDDDDDDDDD" + // 0x60
 		"DDDDDDDDDDDDDDDDDDDDDDDDDDDDDDDD" + // 0x80
